@@ -6,6 +6,18 @@ use strobe_rs::{SecParam, Strobe};
 
 pub const LENS: &[usize] = &[0, 1, 2, 15, 16, 17, 23, 24, 25, 31, 32, 33, 161, 162, 165, 166, 167, 200, 331, 332, 333];
 
+/// machine-size lengths: powers of two and multiples of a 4 KiB page (streaming / chunked /
+/// buffered code paths change behaviour exactly there), each also one below and one above
+pub const PAGE_LENS: &[usize] = &[255, 256, 257, 512, 1024, 2048, 4095, 4096, 4097, 8192, 12288, 16384, 32768, 65536];
+
+pub fn gen_page_len(g: &mut Sm, max: usize) -> usize {
+  let mut l = *g.pick(PAGE_LENS);
+  while l > max {
+    l /= 2;
+  }
+  l
+}
+
 pub fn gen_len(g: &mut Sm, max: usize) -> usize {
   let l = if g.chance(2, 3) { *g.pick(LENS) } else { g.below(300) as usize };
   l.min(max)
@@ -68,8 +80,14 @@ pub fn adss(tier: &str, seed: u64) {
   for case in 0..n {
     let t = if case % 9 == 0 { 0 } else if case % 13 == 5 { *g.pick(&[255u32, 256, 257]) } else if !quick(tier) && case % 97 == 11 { *g.pick(&[65535u32, 65536, 65537]) } else { gen_threshold(&mut g, tier) };
     let big = !quick(tier) && case % 50 == 7;
-    let m = { let n = if big { 100_000 } else { gen_len(&mut g, 400) }; g.blob(n) };
-    let r = { let n = gen_len(&mut g, 400); g.blob(n) };
+    // machine-size message / coins (page multiples, powers of two), each with short and with
+    // page-sized companions
+    let page_m = !big && case % 8 == 3;
+    let page_r = !big && case % 8 == 6;
+    let pmax = if quick(tier) { 16384 } else { 65536 };
+    let t = if (page_m || page_r) && t > 40 { 3 } else { t };
+    let m = { let n = if big { 100_000 } else if page_m { stat("adss.page_sized_message"); gen_page_len(&mut g, pmax) } else { gen_len(&mut g, 400) }; g.blob(n) };
+    let r = { let n = if page_r { stat("adss.page_sized_coins"); gen_page_len(&mut g, pmax) } else if page_m && g.chance(1, 3) { 4096 } else { gen_len(&mut g, 400) }; g.blob(n) };
     let custom = g.chance(1, 5);
     let (tr, trs) = if custom {
       let (s, d) = custom_transcript(&mut g);
